@@ -88,12 +88,22 @@ impl CommandResult {
 }
 impl Shell {
 //@FN Shell::remove_func
+//@FN Shell::set_func
 //@FN Shell::set_env
 //@FN Shell::remove_env
 }
 //@FN set_shell_vars
 //@FN cd_run
 //@FN unset_run
+impl Shell {
+    // contract proved in U-EXP2 (C17.table.unalias_removes_exactly_n)
+    #[verifier::external_body]
+    pub fn remove_alias(&mut self, name: &str) -> (r: bool)
+        ensures smap(final(self).aliases) == smap(old(self).aliases).remove(name@) && r == smap(old(self).aliases).contains_key(name@),
+            smap(final(self).envs) == smap(old(self).envs) && smap(final(self).funcs) == smap(old(self).funcs)
+    { unimplemented!() }
+}
+//@FN unalias_run
 ''' + common.TAIL
 
 S = 'src/shell.rs'
@@ -105,8 +115,13 @@ ENVRW = [
     Rw(r'self\.envs\.insert\(', 'vx_hm_insert(&mut self.envs, ', regex=True, required=False, rule='R12'),
     Rw(r'self\.envs\.remove\(', 'vx_hm_remove(&mut self.envs, ', regex=True, required=False, rule='R12'),
     Rw(r'self\.funcs\.remove\(', 'vx_hm_remove(&mut self.funcs, ', regex=True, required=False, rule='R12'),
+    Rw(r'self\.funcs\.insert\(', 'vx_hm_insert(&mut self.funcs, ', regex=True, required=False, rule='R12'),
 ]
 
+# C15: a function defined again is the later definition (whole-map postcondition: exactly that name changes)
+set_func = Fn(S, 'set_func', impl='Shell', pre_rewrites=ENVRW,
+    ensures=[('C15.set_func.the_later_definition_replaces_the_earlier_one', 'smap(final(self).funcs) == smap(old(self).funcs).insert(name@, value@) '
+              '&& smap(final(self).envs) == smap(old(self).envs) && final(self).current_dir == old(self).current_dir && final(self).previous_dir == old(self).previous_dir')])
 remove_func = Fn(S, 'remove_func', impl='Shell', pre_rewrites=ENVRW,
     ensures=[('C09+C10.remove_func.frame', 'smap(final(self).envs) == smap(old(self).envs) && smap(final(self).funcs) == smap(old(self).funcs).remove(name@) '
               '&& final(self).current_dir == old(self).current_dir && final(self).previous_dir == old(self).previous_dir')])
@@ -194,7 +209,16 @@ unset_run = Fn('src/builtins/unset.rs', 'run', rename='unset_run', ret='r', add_
          '!(cmd.tokens@.len() == 2 && spec_is_identifier(cmd.tokens@[1].1@)) ==> final(p).env == old(p).env && smap(final(sh).envs) == smap(old(sh).envs) && r.status == 1'),
     ])
 
-UNIT = Unit('U-ENV', TEMPLATE, fns=[remove_func, set_env, remove_env, set_shell_vars, cd_run, unset_run,
+# C17: `unalias n` removes exactly n -- whatever its value is (also an empty one) -- and says so by its status
+unalias_run = Fn('src/builtins/unalias.rs', 'run', rename='unalias_run', ret='r', props=('C17',),
+    pre_rewrites=TYRW + [Rw('let tokens = cmd.tokens.clone();', 'let tokens = vx_clone_tokens(&cmd.tokens);', rule='R7')],
+    ensures=[
+        ('C17.unalias.removes_exactly_the_named_alias',
+         'cmd.tokens@.len() == 2 ==> smap(final(sh).aliases) == smap(old(sh).aliases).remove(cmd.tokens@[1].1@) '
+         '&& (r.status == 0) == smap(old(sh).aliases).contains_key(cmd.tokens@[1].1@)'),
+        ('C17.unalias.otherwise_nothing_changes', 'cmd.tokens@.len() != 2 ==> smap(final(sh).aliases) == smap(old(sh).aliases) && r.status == 1'),
+    ])
+UNIT = Unit('U-ENV', TEMPLATE, fns=[remove_func, set_func, set_env, remove_env, set_shell_vars, cd_run, unset_run, unalias_run,
                                      Fn('src/types.rs', 'new', impl='CommandResult', ret='r', ensures=[('C09+C10.cr.new', 'r.status == 0')])],
             types=[TypeItem('src/types.rs', 'struct', 'Job'), TypeItem('src/shell.rs', 'struct', 'Shell', rewrites=[Rw('types::Job', 'Job', rule='R0')]),
                    TypeItem('src/types.rs', 'struct', 'Command'), TypeItem('src/types.rs', 'struct', 'CommandLine'), TypeItem('src/types.rs', 'struct', 'CommandResult')],
